@@ -409,6 +409,17 @@ static AddOutcome do_add(Exec& ex, Crystal_Array* arr, ArrayModel* m, const Crys
   return out;
 }
 
+// String arguments reach the library in a heap block of exactly strlen+1 bytes: a read one byte before the first or
+// past the terminating NUL then lands in an ASan redzone.  (std::string keeps short strings inside the object and
+// longer ones in blocks with spare capacity, where such a read would go unnoticed.)
+struct ExactStr {
+  char* p = nullptr;
+  ExactStr(const char* s, size_t n, bool null) { if (!null) { p = (char*)malloc(n + 1); memcpy(p, s, n); p[n] = 0; } }
+  ~ExactStr() { free(p); }
+  ExactStr(const ExactStr&) = delete;
+  ExactStr& operator=(const ExactStr&) = delete;
+};
+
 void Exec::run_op(const Op& op) {
   if (stopped) return;
   int pos = seq++;
@@ -424,6 +435,9 @@ void Exec::run_op(const Op& op) {
   Crystal_Array* touched = nullptr;
   ArrayModel* touched_model = nullptr;
   bool touched_modified = false;
+  ExactStr xs_nullable(op.s.data(), op.s.size(), op.snull), xs_always(op.s.data(), op.s.size(), false);
+  const char* const S = xs_nullable.p;    // NULL when the op asks for a NULL string
+  const char* const S0 = xs_always.p;
   if (op.fail) arm_alloc_fault(op.fail);
 
   auto array_of = [&](int hid, Crystal_Array** arr, ArrayModel** m) -> bool {
@@ -442,7 +456,7 @@ void Exec::run_op(const Op& op) {
       QArgs a;
       memcpy(a.i, op.i, sizeof a.i);
       memcpy(a.d, op.d, sizeof a.d);
-      a.s = op.snull ? nullptr : op.s.c_str();
+      a.s = S;
       if (op.i[3] > 0 && op.d[11] != 0 && q->shape[0] == 'i' && strlen(q->shape) < 12) {
         // energy relative to an absorption edge of this element (the edge is looked up inside the op)
         double edge = EdgeEnergy(a.i[0], op.i[3] - 1, nullptr);
@@ -463,7 +477,7 @@ void Exec::run_op(const Op& op) {
       break;
     }
     case OK_PARSE: {
-      struct compoundData* cd = CompoundParser(op.snull ? nullptr : op.s.c_str(), ep);
+      struct compoundData* cd = CompoundParser(S, ep);
       failed_sentinel = !cd;
       if (!cd && t_task->caller_loc && !op_fault_fired()) SH->probes[PR_PARSE_FAIL_UNDER_TLOC]++;
       if (cd) {
@@ -487,7 +501,7 @@ void Exec::run_op(const Op& op) {
       break;
     }
     case OK_NIST_NAME: case OK_NIST_IDX: {
-      struct compoundDataNIST* c = op.kind == OK_NIST_NAME ? GetCompoundDataNISTByName(op.snull ? nullptr : op.s.c_str(), ep)
+      struct compoundDataNIST* c = op.kind == OK_NIST_NAME ? GetCompoundDataNISTByName(S, ep)
                                                             : GetCompoundDataNISTByIndex(op.i[0], ep);
       failed_sentinel = !c;
       if (c) {
@@ -497,7 +511,7 @@ void Exec::run_op(const Op& op) {
       break;
     }
     case OK_RN_NAME: case OK_RN_IDX: {
-      struct radioNuclideData* c = op.kind == OK_RN_NAME ? GetRadioNuclideDataByName(op.snull ? nullptr : op.s.c_str(), ep)
+      struct radioNuclideData* c = op.kind == OK_RN_NAME ? GetRadioNuclideDataByName(S, ep)
                                                           : GetRadioNuclideDataByIndex(op.i[0], ep);
       failed_sentinel = !c;
       if (c) {
@@ -539,7 +553,7 @@ void Exec::run_op(const Op& op) {
       break;
     }
     case OK_S2A: {
-      int z = SymbolToAtomicNumber(op.snull ? nullptr : op.s.c_str(), ep);
+      int z = SymbolToAtomicNumber(S, ep);
       g.i32(z);
       failed_sentinel = z == 0;
       break;
@@ -552,8 +566,8 @@ void Exec::run_op(const Op& op) {
         failed_sentinel = !pm;
         if (pm) { for (int k = 0; k < op.i[0]; k++) pm[k] = (unsigned char)k; g.i32(op.i[0]); xrlFree(pm); }
       }
-      else if (op.fn == "xrl_strdup") { char* c = xrl_strdup(op.s.c_str()); failed_sentinel = !c; if (c) { g.str(c); xrlFree(c); } }
-      else if (op.fn == "xrl_strndup") { char* c = xrl_strndup(op.s.c_str(), (size_t)op.i[0]); failed_sentinel = !c; if (c) { g.str(c); xrlFree(c); } }
+      else if (op.fn == "xrl_strdup") { char* c = xrl_strdup(S0); failed_sentinel = !c; if (c) { g.str(c); xrlFree(c); } }
+      else if (op.fn == "xrl_strndup") { char* c = xrl_strndup(S0, (size_t)op.i[0]); failed_sentinel = !c; if (c) { g.str(c); xrlFree(c); } }
       else if (op.fn == "release_nulls") {
         // every release / inspection function that documents (or checks for) a NULL argument
         xrl_error* none = nullptr;
@@ -567,7 +581,7 @@ void Exec::run_op(const Op& op) {
         g.i32(xrl_error_matches(nullptr, XRL_ERROR_MEMORY));
       }
       else if (op.fn == "xrl_error_new") {
-        xrl_error* c = xrl_error_new((xrl_error_code)(op.i[0] % 6), "%s: %d of %g", op.s.c_str(), op.i[0], op.d[0]);
+        xrl_error* c = xrl_error_new((xrl_error_code)(op.i[0] % 6), "%s: %d of %g", S0, op.i[0], op.d[0]);
         failed_sentinel = !c;
         if (c) { if (!op_fault_fired()) { g.i32(c->code); g.str(c->message); } xrl_error_free(c); }
       }
@@ -575,7 +589,7 @@ void Exec::run_op(const Op& op) {
       break;
     }
     case OK_ERR_NEW: {
-      xrl_error* c = xrl_error_new_literal((xrl_error_code)op.i[0], op.s.c_str());
+      xrl_error* c = xrl_error_new_literal((xrl_error_code)op.i[0], S0);
       failed_sentinel = !c;
       if (c) {
         if (!op_fault_fired()) { g.i32(c->code); g.str(c->message); }
@@ -708,7 +722,8 @@ void Exec::run_op(const Op& op) {
       else if (wf && !truncated && !eio_hits && !vf.unseekable && !collide) { cls = MUST_OK; why = "well-formed file, no fault"; }
       else { cls = EITHER; why = "outside the strict dialect / benign fault"; }
       int before_n = actual->n_crystal;
-      int ret = Crystal_ReadFile(op.fs.name_null ? nullptr : nm, arr, ep);
+      ExactStr fname_x(nm, strlen(nm), op.fs.name_null != 0);
+      int ret = Crystal_ReadFile(fname_x.p, arr, ep);
       g.i32(ret);
       failed_sentinel = ret == 0;
       bool fired = op_fault_fired();
@@ -736,7 +751,7 @@ void Exec::run_op(const Op& op) {
     case OK_CA_GET: {
       Crystal_Array* arr; ArrayModel* m;
       if (!array_of(op.h[0], &arr, &m)) { executed = false; break; }
-      Crystal_Struct* c = Crystal_GetCrystal(op.snull ? nullptr : op.s.c_str(), arr, ep);
+      Crystal_Struct* c = Crystal_GetCrystal(S, arr, ep);
       failed_sentinel = !c;
       bool fired = op_fault_fired();
       if (c && fired) { nh.type = HT_CRYSTAL; nh.p = c; break; }
@@ -815,7 +830,7 @@ void Exec::run_op(const Op& op) {
         if (h->shared) SH->probes[PR_SHARED_CRYSTAL_2TASKS]++;
       } else if (!op.s.empty()) {
         // self-contained form: fetch a shipped crystal by name, use it, release it
-        fetched = Crystal_GetCrystal(op.s.c_str(), nullptr, nullptr);
+        fetched = Crystal_GetCrystal(S0, nullptr, nullptr);
         if (!fetched) { executed = false; break; }
         cp = fetched;
         if (op.id % 2) {
